@@ -77,13 +77,13 @@ def build_many(flavours):
 
 
 # ---------------------------------------------------------------------------------- TLC model checking
-def tlc_mc(module, cfg=None, workers=3, timeout=1500, extra=(), env=None, simulate=None):
+def tlc_mc(module, cfg=None, workers=3, timeout=900, extra=(), env=None, simulate=None, coverage=True):
     """Run TLC on spec/<module>.tla with spec/<cfg>.cfg.  Returns dict(ok, states, distinct, out, coverage)."""
     cfg = cfg or module
     md = '%s/tlc/mc_%s_%d' % (BUILD, cfg, os.getpid())
     shutil.rmtree(md, ignore_errors=True)
     os.makedirs(md, exist_ok=True)
-    cmd = [TLC, '-workers', str(workers), '-metadir', md, '-coverage', '1', '-config', cfg + '.cfg']
+    cmd = [TLC, '-workers', str(workers), '-metadir', md] + (['-coverage', '1'] if coverage else []) + ['-config', cfg + '.cfg']
     if simulate:
         cmd += ['-simulate', simulate]
     cmd += list(extra) + [module + '.tla']
@@ -310,7 +310,11 @@ class Check:
             f.result()
         self._bg = []
 
-    def mc(self, module, cfg=None, must_fail=False, actions=None, disabled=(), **kw):
+    def mc(self, module, cfg=None, must_fail=False, actions=None, disabled=(), min_states=None, **kw):
+        """min_states: vacuity guard for models run without -coverage (per-action statistics are
+        prohibitively slow on models with deep recursive terms): the run must reach that many states."""
+        if min_states is not None:
+            kw['coverage'] = False
         r = tlc_mc(module, cfg, **kw)
         entry = {'model': cfg or module, 'distinct_states': r.get('distinct'), 'generated': r.get('generated'),
                  'wall_s': round(r['wall_s'], 1), 'actions': r['coverage']}
@@ -327,7 +331,10 @@ class Check:
                 f.write(r['out'])
             self.violation('model:' + (cfg or module), 'TLC reports a violation in model %s' % (cfg or module), rd)
             return r
-        require_coverage(r, actions, disabled)
+        if min_states is None:
+            require_coverage(r, actions, disabled)
+        elif r.get('distinct', 0) < min_states:
+            raise Infra('model %s explored only %s states (expected at least %d)' % (cfg or module, r.get('distinct'), min_states))
         self.cov['states'] += r.get('distinct', 0)
         self.cov['transitions'] += r.get('generated', 0)
         return r
